@@ -23,7 +23,7 @@ ASSUMPTIONS = ['same-instant leniency: in packet mode a packet that arrived at a
                'later arrivals of that very instant; monitor samples at an instant where a transmission starts or ends '
                'may see either side', 'FLOAT workloads compare time laws with relative tolerance 1e-9, GRID exactly',
                'RED: one uniform draw per arrival in the probabilistic regions, drop iff draw <= p (equality lenient)']
-PROBES = ['prestamped_packets', 'rate_assigned_after_construction', 'fill_exactly_at_limit', 'arrival_coincides_with_departure', 'rate_zero', 'tail_drop_bytes', 'tail_drop_packets',
+PROBES = ['compared_with_bare_twin', 'prestamped_packets', 'rate_assigned_after_construction', 'fill_exactly_at_limit', 'arrival_coincides_with_departure', 'rate_zero', 'tail_drop_bytes', 'tail_drop_packets',
           'unlimited', 'monitor_sample', 'red_below_min', 'red_linear_region', 'red_above_max', 'red_above_qlimit',
           'red_drop_by_draw', 'waited']
 
@@ -98,7 +98,34 @@ def _post(port, p):
 
 
 def run(case):
-    w = NetWorld()
+    w, port, mon = _execute(case, False)
+    env = w.env
+    viol, stats, nontrivial = check(w, case, port, mon)
+    if case.get('prestamped'):
+        stats['prestamped_packets'] = 1
+    if case.get('late_rate') and case.get('elem') != 'REDPort':
+        stats['rate_assigned_after_construction'] = 1
+    if case.get('twin'):
+        # the same port between library elements only, nobody reading its counters while it works
+        from ..net import sink_view, compare_sink_views
+        stats['compared_with_bare_twin'] = 1
+        w2, _p2, _m2 = _execute(case, True)
+        if w2.raised:
+            viol.append(('C09.T', 'the same scenario without taps raised %r' % (w2.raised[0],)))
+        else:
+            d = compare_sink_views(sink_view(w), sink_view(w2))
+            if d is not None:
+                viol.append(('C09.T', 'the port works differently when nobody watches it (no taps, a library sink, no counter '
+                             'read from outside): ' + d))
+    res = {'viol': viol, 'digest': digest_of(w.log), 'nontrivial': nontrivial, 'stats': stats,
+           'simtime': float(env.now), 'steps': w.steps}
+    if case.get('_excerpt'):
+        res['excerpt'] = [repr(r) for r in w.log[-80:]]
+    return res
+
+
+def _execute(case, bare):
+    w = NetWorld(bare=bare)
     env = w.env
     mode = case.get('mode', 'GRID')
     eid = case.get('element_id', 'port0')
@@ -133,23 +160,14 @@ def run(case):
             tap = PreStamp()
         start_injector(w, tap, [tuple(x) for x in case.get('workload', [])])
         mon = None
-        if case.get('monitor') and case.get('elem') != 'REDPort':
+        if case.get('monitor') and case.get('elem') != 'REDPort' and not bare:
             mon = PortMonitor(env, port, Script(w, 'mon', case['monitor'].get('dist', [1.0]), 1.0, finite=True),
                               pkt_in_service_included=case['monitor'].get('included', False))
             env.process(mon.run())
         w.run(max_steps=20000 * (40 if case.get('long_life') else 1))
     finally:
         red_mod.random = saved
-    viol, stats, nontrivial = check(w, case, port, mon)
-    if case.get('prestamped'):
-        stats['prestamped_packets'] = 1
-    if case.get('late_rate') and case.get('elem') != 'REDPort':
-        stats['rate_assigned_after_construction'] = 1
-    res = {'viol': viol, 'digest': digest_of(w.log), 'nontrivial': nontrivial, 'stats': stats,
-           'simtime': float(env.now), 'steps': w.steps}
-    if case.get('_excerpt'):
-        res['excerpt'] = [repr(r) for r in w.log[-80:]]
-    return res
+    return w, port, mon
 
 
 def check(w, case, port, mon):
@@ -393,6 +411,8 @@ _gen_short = gen
 
 def gen(rng, tier):
     case = _gen_short(rng, tier)
+    if rng.random() < 0.2:
+        case['twin'] = True
     if rng.random() < 1 / 80 and True and len(case.get('workload', [])) >= 3:
         # a long life: the same pattern of bursts, gaps and coincidences over and over, thousands of packets in all
         from ..net import stretch_workload
